@@ -9,7 +9,7 @@ ID = 'C12'
 ENGINE = 'detsched'
 TECHNIQUE = 'runtime monitoring under a deterministic cooperative scheduler with a virtual clock: happens-after checker (no dispatch and no timed posting after stop() returned), thread liveness, liveness of a second object and of the fabric, exact deadlock detection'
 RULE = ('an ActiveObject with 0-3 timed sources, 0-3 poster threads and a handler that may post, a SECOND active object and a plain queue '
-        'subscribed to the fabric; stop() is called at a random virtual instant (in part of the runs while the current step of the object is arming a further timed source) (coinciding with a timer instant in half of the runs) from '
+        'subscribed to the fabric; stop() is called at a random virtual instant (in part of the runs while the current step of the object is arming a further timed source, in part while an application thread arms one: such a source must be silent after stop() returned whenever its arming call had returned, or it had already posted, before stop() was called) (coinciding with a timer instant in half of the runs) from '
         'the harness thread or from inside one of the object\'s own handlers. After stop() returned from outside: the object\'s thread has '
         'ended, no dispatch-enter record and no posting by one of its timed sources carries a later step, a post to the second object is '
         'still dispatched and a fabric publication still reaches its subscriber; stop() inside a handler: no exception escapes, no further '
@@ -17,7 +17,8 @@ RULE = ('an ActiveObject with 0-3 timed sources, 0-3 poster threads and a handle
         '(inside/outside, sources, posters, context-switch sequence prefix) tuples')
 CASES = {'quick': 1200, 'thorough': 80000}
 BUDGET = {'quick': 50, 'thorough': 300}
-REQUIRE = {'runs': 500, 'stop_from_outside': 200, 'stop_from_handler': 150, 'runs_with_timed_sources': 300, 'stop_coincides_with_posting': 100, 'step_arms_timed_source_during_stop': 100}
+REQUIRE = {'runs': 500, 'stop_from_outside': 200, 'stop_from_handler': 150, 'runs_with_timed_sources': 300, 'stop_coincides_with_posting': 100, 'step_arms_timed_source_during_stop': 100,
+           'application_thread_arms_source_around_stop': 100, 'application_armed_source_started_before_stop': 40}
 ASSUME = ['instantaneous-computation time model']
 ANNOUNCE_CASES = True
 
@@ -56,6 +57,12 @@ def run_case(ctx, n):
       timersim.start_source(chart, run, armsrc)
     st = timersim.make_state(run, [do_stop, do_arm], spied=rng.random() < 0.5)
     arm_in_last_step = (not inside) and rng.random() < 0.4
+    # an application thread (not the object's own) arms a further timed source around the instant of the stop() from outside
+    ext_arm = (not inside) and rng.random() < 0.5
+    extsrc = {'i': 60, 'sig': 'TICK_EXT', 'kind': rng.choice(['fifo', 'lifo']), 'period': rng.choice([0.01, 0.05]), 'times': 0,
+              'deferred': rng.choice([False, False, True]), 'start_delay': 0.0}
+    ext_rec = {}
+    ext_more = rng.randint(0, 3)
     fanB = {}
     stB = aosim.make_state(histB, fanB, spied=True, name='b_state')
     fabric_q = collections.deque()
@@ -80,6 +87,18 @@ def run_case(ctx, n):
         ts = run.t0[tsrc['i']] + rng.randint(1, 3) * tsrc['period']
       else:
         ts = s.clock + rng.choice([0.0, 0.004, 0.0333, 0.21])
+      if ext_arm:
+        def ext_armer():
+          ds.STime.sleep(max(0.0, ts - rng.choice([0.0, 0.0, 0.0005]) - ds.S.clock))
+          ext_rec['call'] = ds.S.steps
+          timersim.start_source(ao, run, extsrc)
+          ext_rec['ret'] = ds.S.steps
+          for j in range(ext_more):
+            # further sources armed back to back (long period: they never post within the run)
+            timersim.start_source(ao, run, {'i': 61 + j, 'sig': 'TICK_EXT_MORE', 'kind': 'fifo', 'period': 500.0, 'times': 1, 'deferred': True, 'start_delay': 0.0})
+        ths.append(ds.SThread(target=ext_armer))
+        ths[-1].start()
+        ctx.count('application_thread_arms_source_around_stop')
       ds.STime.sleep(max(0.0, ts - s.clock))
       if inside:
         ao.post_fifo(Event(signal='DO', payload=0))
@@ -140,7 +159,22 @@ def run_case(ctx, n):
       if later:
         ctx.violation('C12/step-after-stop-returned', '%d run-to-completion steps started after stop() had returned' % len(later), wit)
         return
-    late_posts = [p for p in timersim.postings(ao) if p[0] is not None and p[0] < 100 and p[2] > rec['ret']]
+    allposts = timersim.postings(ao)
+    ext_posts = [p for p in allposts if p[0] == 60]
+    if ext_posts and not inside:
+      # the source armed by an application thread: it certainly "was started" when its arming call had returned, or when it had
+      # already posted, before stop() was called; an arming call that merely overlaps stop() may take effect after it (not judged)
+      started_before = ('ret' in ext_rec and ext_rec['ret'] < rec['call']) or any(p[2] < rec['call'] for p in ext_posts)
+      late_ext = [p for p in ext_posts if p[2] > rec['ret']]
+      if started_before:
+        ctx.count('application_armed_source_started_before_stop')
+        if late_ext:
+          ctx.violation('C12/timed-post-after-stop-returned/source-armed-by-application-thread', 'a timed source armed by an application thread (arming call %s; first posting at step %d, stop() called at step %d) posted %d event(s) after stop() had returned (step %d)' % (
+            'returned at step %d' % ext_rec['ret'] if 'ret' in ext_rec else 'still running', ext_posts[0][2], rec['call'], len(late_ext), rec['ret']), dict(wit, arming=ext_rec, late=late_ext[:4]))
+          return
+      elif late_ext:
+        ctx.count('application_arm_overlapping_stop_not_judged')
+    late_posts = [p for p in allposts if p[0] is not None and p[0] < 100 and p[0] != 60 and p[2] > rec['ret']]
     if late_posts:
       key = 'C12/timed-post-after-stop-returned'
       if len(late_posts) == 1 and abs(late_posts[0][3] - rec['call_clock']) < 1e-9:
